@@ -14,16 +14,20 @@ import MetricsVerif.Driver.Key
 import MetricsVerif.Driver.Cow
 import MetricsVerif.Driver.Bucket
 import MetricsVerif.Driver.Reservoir
+import MetricsVerif.Driver.Statsd
+import MetricsVerif.Driver.Registry
 
 open MetricsVerif.Driver
 
 structure DState where
+  registry : Option Registry.St := none
   reservoir : Option MetricsVerif.Reservoir.ASR := none
   cow : Cow.DSt := {}
   recency : Option MetricsVerif.Recency.St := none
   prom : Option MetricsVerif.Prom.St := none
   layers : Option Layers.St := none
   tracing : Option Tracing.DSt := none
+  statsd : Statsd.St := none
 
 def step (st : DState) (line : String) : DState × String :=
   if line.startsWith "#" then ({}, line) else
@@ -56,6 +60,14 @@ def step (st : DState) (line : String) : DState × String :=
   | "reservoir" :: args =>
     match Reservoir.handle st.reservoir args with
     | some (r, o) => ({ st with reservoir := r }, o)
+    | none => (st, "bad-op")
+  | "statsd" :: args =>
+    match Statsd.handle st.statsd args with
+    | some (w, o) => ({ st with statsd := w }, o)
+    | none => (st, "bad-op")
+  | "registry" :: args =>
+    match Registry.handle st.registry args with
+    | some (r, o) => ({ st with registry := r }, o)
     | none => (st, "bad-op")
   | _ => (st, "bad-op")
 
